@@ -23,6 +23,12 @@ type lifecycle struct {
 	Zombie         *types.Var
 	RestartingF    *types.Var // Context field holding the restart message (non-nil while restarting)
 	MailboxF       *types.Var
+	RefF           *types.Var // the actor's own reference (the field the Ref() accessor returns)
+	ParentF        *types.Var // the parent's reference (the field the Parent() accessor returns)
+	ActorF         *types.Var // field of type vivid.Actor
+	EnvelopF       *types.Var // field of type vivid.Envelop (the message being handled)
+	OptionsF       *types.Var // field of type *vivid.ActorOptions
+	StackF         *types.Var // field of type *BehaviorStack
 	HandleEnvelop  *ssa.Function
 	OnKilledFn     *ssa.Function // runs the kill chain
 	DoKill         *ssa.Function // forwards the kill to the children, runs the behaviour, then OnKilledFn
@@ -62,6 +68,71 @@ func (p *Program) lifecycle() *lifecycle {
 		return lc
 	}
 	lc.HandleEnvelop = p.methodNamed(lc.Ctx, "HandleEnvelop")
+	// fields by role: what the public accessors return, or by (exported) type
+	accessorField := func(name string) *types.Var {
+		fn := p.methodNamed(lc.Ctx, name)
+		if fn == nil {
+			return nil
+		}
+		for _, b := range fn.Blocks {
+			if ret, ok := b.Instrs[len(b.Instrs)-1].(*ssa.Return); ok && len(ret.Results) == 1 {
+				v := ret.Results[0]
+				for {
+					switch x := v.(type) {
+					case *ssa.MakeInterface:
+						v = x.X
+						continue
+					case *ssa.ChangeInterface:
+						v = x.X
+						continue
+					case *ssa.Phi: // `if c.parent == nil { return nil }; return c.parent`
+						for _, e := range x.Edges {
+							if f, _ := fieldLoad(e); f != nil {
+								return f
+							}
+							if mi, ok := e.(*ssa.MakeInterface); ok {
+								if f, _ := fieldLoad(mi.X); f != nil {
+									return f
+								}
+							}
+						}
+					}
+					break
+				}
+				if f, _ := fieldLoad(v); f != nil && fieldVar(lc.Ctx, f.Name()) == f {
+					return f
+				}
+			}
+		}
+		return nil
+	}
+	lc.RefF, lc.ParentF = accessorField("Ref"), accessorField("Parent")
+	{
+		cst := lc.Ctx.Underlying().(*types.Struct)
+		for i := 0; i < cst.NumFields(); i++ {
+			f := cst.Field(i)
+			n := namedOf(f.Type())
+			if n == nil || n.Obj().Pkg() == nil {
+				continue
+			}
+			root := n.Obj().Pkg().Path() == modPath
+			switch {
+			case root && n.Obj().Name() == "Actor":
+				lc.ActorF = f
+			case root && n.Obj().Name() == "Envelop":
+				lc.EnvelopF = f
+			case root && n.Obj().Name() == "ActorOptions":
+				lc.OptionsF = f
+			case n.Obj().Name() == "BehaviorStack":
+				lc.StackF = f
+			}
+		}
+	}
+	for name, f := range map[string]*types.Var{"own reference": lc.RefF, "parent reference": lc.ParentF, "actor": lc.ActorF, "envelope": lc.EnvelopF, "options": lc.OptionsF, "behaviour stack": lc.StackF} {
+		if f == nil {
+			bad("context field by role: %s", name)
+		}
+	}
 	st := lc.Ctx.Underlying().(*types.Struct)
 	mb := p.Named("", "Mailbox")
 	for i := 0; i < st.NumFields(); i++ {
@@ -488,4 +559,13 @@ func (lc *lifecycle) roleFuncs(p *Program) map[*ssa.Function]bool {
 		}
 	}
 	return m
+}
+
+
+// pat: the provenance-chain segment of a context field, e.g. "Context.ref<-" (names taken from the program, not fixed).
+func (lc *lifecycle) pat(f *types.Var) string {
+	if f == nil {
+		return "\x00unresolved-field\x00"
+	}
+	return lc.Ctx.Obj().Name() + "." + f.Name() + "<-"
 }
